@@ -19,7 +19,7 @@ def check(run):
     run.oblige("build:harness", binp is not None, err or "")
     if binp is None:
         return
-    n = 8000 if run.tier == "quick" else 200000
+    n = 24000 if run.tier == "quick" else 200000
     cases = urlcorr.wpt_cases() + urlcorr.gen_cases(run.rng, n, hist_frac=0.0)
     res = urlcorr.explore(run, binp, cases, with_spec=False)
     if res is None:
